@@ -11,7 +11,7 @@ CORR_VO = 'Corr/C15.vo'
 GENERATORS = {}
 SOURCES = ['sqlobject/inheritance/__init__.py', 'sqlobject/inheritance/iteration.py', 'sqlobject/main.py']
 COQ_HEADER = '''From Coq Require Import List ZArith Bool. Import ListNotations. Open Scope Z_scope.
-From Lib Require Import CorrLib. From Model Require Import Inherit.
+From Lib Require Import CorrLib. From Model Require Import Inherit InheritInst.
 From Corr Require Import C15.'''
 COQ_CASE_TYPE = 'case'
 COQ_AGREE = 'agree'
@@ -31,24 +31,35 @@ RULE = ('seeded random histories (3..16 operations) over the hierarchy HA(x) <- 
         'invalid own / inherited value through every entry class; every column-less variant x class x entry class fetched cold and warm '
         'through get from every ancestor level and select on every level, written and destroyed through what was handed out) and a malformed stream '
         '(absent ids, wrong entry class, invisible columns). '
+        'Instance histories (a quarter of the random stream + every class x entry class x level x {sync, expire, syncUpdate}): one identity map '
+        'for the whole history (never culled), create / get / assignment / destroySelf, UPDATEs of one level\'s row behind the ORM, and sync() / '
+        'syncUpdate() / expire() on the instance of any level of the _parent chain of what get hands out through any entry class; the rare other '
+        'operations in them run on an emptied identity map. '
         'Non-trivial = the history holds a subclass instance and reaches it through an ancestor class or selects on a subclass; '
         'distinct = distinct (mode, warm, operation list).')
 EXPLANATION = ('Theorems over Model/Inherit.v (unbounded histories, both connection modes) + correspondence of the model with the real '
                'SQLObject after every operation (outcome, class and attribute values of every object handed out, FROM list and COUNT of '
                'every select, raw dump of every table) + oracle judging nesting / most-derived class / attribute values / select '
-               'results / destroy / failed create directly on the raw tables.')
+               'results / destroy / failed create directly on the raw tables.  Instance histories: Model/InheritInst.v (per level and id the cached '
+               'value of the _parent-chain instance and the identity-map entry: same instance / none / a twin) is compared the same way; the oracle '
+               'compares every attribute read through every level with the raw row: a difference is legitimate only while the row was changed behind '
+               'the ORM and neither sync() nor expire() was called on any instance of the row since (and then only the value shown before).')
 TRUSTED_BASE = [
     'Coq 8.16.1 kernel + vm_compute (examples, correspondence); no native_compute',
     'Model/Inherit.v is hand-written after inheritance/__init__.py, inheritance/iteration.py and main.py (Tie B only)',
     'SQL semantics assumed by the model: a SELECT over several tables is the filter of their cartesian product under three-valued logic; '
     'UNIQUE ignores NULLs; NOT NULL; AUTOINCREMENT ids are never reused and a failed INSERT does not consume one; a constraint failure '
     'aborts only the statement (validated by execution on sqlite)',
-    'the identity map (C04/C05) is not modelled: an operation of the model reads the tables; histories run warm (cache kept) as long as the '
+    'table histories: the identity map is not modelled, an operation of the model reads the tables; they run warm (cache kept) as long as the '
     'raw tables nest, and with a cold cache at every step once they do not',
+    'instance histories (Model/InheritInst.v): the identity map is modelled for create / get / attribute assignment / destroySelf / sync / '
+    'syncUpdate / expire of rows whose tables nest (autocommit, no reference rows); every other operation is run on an emptied identity map and '
+    'empties it (harness and model alike); cache culling is switched off (cullFrequency) -- weak references and the garbage collector are outside; '
+    'direct updates only: sqlmeta.lazyUpdate hierarchies are not modelled (behaviour recorded by experiment in docs/notes/C15.md)',
     'a level without an own column is presented to the model as a level whose nullable column is always NULL (create arguments, views and dumps show NULL there); '
     'non-inheritable (_inheritable = False) column-less leaves, the only case in which the unchanged get() skips the child query, are not covered',
     'fixture-specific: at most one own Int column per class; filters use only columns visible from the selected class (own + inherited); '
-    'orderBy / lazyColumns / accumulate / joins / events / lazyUpdate are outside',
+    'orderBy / lazyColumns / accumulate / joins / events / lazyUpdate are outside; select on a warm identity map with outdated instances is outside',
     'the correspondence harness tools/props/c15.py and the cases.v evaluation',
 ]
 
@@ -131,6 +142,7 @@ class Sim(object):
         self.vals.pop(i, None)
 
 
+INST_OPS = ('create', 'get', 'setattr', 'destroy', 'rawset', 'sync', 'syncupdate', 'expire')
 SHAPES = [['B'], ['C'], ['B2'], ['B', 'C'], ['B', 'B2'], ['C', 'B2'], ['B', 'C', 'B2']]
 
 
@@ -386,6 +398,109 @@ def enum_shape_cases():
     return out
 
 
+def gen_inst_history(rng, n):
+    """instance histories: one identity map for the whole history; out-of-band UPDATEs, sync / syncUpdate / expire on the
+    instance of any level of the _parent chain of what get hands out through any entry class"""
+    ops = []
+    sim = Sim('auto', ())
+
+    def anyid(e=None):
+        good = [i for i, k in sim.live.items() if e is None or e in CHAIN[k]]
+        if good and rng.random() < 0.93:
+            return rng.choice(good)
+        return rng.randint(1, sim.seq + 2)
+
+    def lvl_of(i):
+        if i in sim.live and rng.random() < 0.93:
+            return rng.choice(CHAIN[sim.live[i]])
+        return rng.choice(CLASSES)
+
+    for _ in range(n):
+        r = rng.random()
+        fresh = 100 + len(ops)
+        if r < 0.2 or not sim.live:
+            k = rng.choice(['A', 'B', 'C', 'C', 'C', 'B2', 'B'])
+            kw = {COLOF[c]: (fresh if rng.random() < 0.9 else rng.choice([1, 2, None, 'bad'])) for c in CHAIN[k]}
+            ops.append(['create', k, kw, False])
+            sim.create(k, kw, False)
+        elif r < 0.36:
+            e = rng.choice(CLASSES)
+            ops.append(['get', e, anyid(e)])
+        elif r < 0.48:
+            e = rng.choice(CLASSES)
+            i = anyid(e)
+            col = COLOF[lvl_of(i)]
+            v = fresh if rng.random() < 0.8 else rng.choice([1, 2, None, 'bad'])
+            ops.append(['setattr', e, i, col, v])
+            sim.write(i, col, v)
+        elif r < 0.64:
+            i = anyid()
+            l = lvl_of(i)
+            v = fresh if rng.random() < 0.85 else rng.choice([1, 2, None])
+            ops.append(['rawset', l, i, v])
+            sim.write(i, COLOF[l], v)
+        elif r < 0.76:
+            e = rng.choice(CLASSES)
+            i = anyid(e)
+            ops.append(['sync', e, i, lvl_of(i)])
+        elif r < 0.90:
+            e = rng.choice(CLASSES)
+            i = anyid(e)
+            ops.append(['expire', e, i, lvl_of(i)])
+        elif r < 0.93:
+            e = rng.choice(CLASSES)
+            i = anyid(e)
+            ops.append(['syncupdate', e, i, lvl_of(i)])
+        elif r < 0.96:
+            e = rng.choice(CLASSES)
+            i = anyid(e)
+            ops.append(['destroy', e, i])
+            sim.destroy(i)
+        elif r < 0.98:
+            k = rng.choice(CLASSES)
+            ops.append(['select', k, gen_filter(rng, k)])
+        else:
+            e = rng.choice(CLASSES)
+            i = anyid(e)
+            ops.append(['set', e, i, [[COLOF[lvl_of(i)], fresh]]])
+    return {'mode': 'auto', 'warm': True, 'conn': 'default', 'shape': [], 'inst': True, 'ops': ops}
+
+
+def enum_inst_cases():
+    """every class x entry class x level x {sync, expire, syncupdate}: out-of-band UPDATE of every level, the call, reads through
+    every entry class; then the same once more on the instances as they are by then, and an assignment through the leaf"""
+    out = []
+    for k in CLASSES:
+        for e in CHAIN[k]:
+            for l in CHAIN[k]:
+                for what in ('sync', 'expire', 'syncupdate'):
+                    ops = [['create', k, {COLOF[c]: 1 for c in CHAIN[k]}, False], ['create', 'C', {'x': 2, 'y': 2, 'z': 2}, False]]
+                    ops += [['rawset', c, 1, 10 + n] for n, c in enumerate(CHAIN[k])]
+                    ops += [[what, e, 1, l]] + [['get', e2, 1] for e2 in CHAIN[k]]
+                    ops += [['rawset', c, 1, 20 + n] for n, c in enumerate(CHAIN[k])]
+                    ops += [[what, e2, 1, c] for e2, c in zip(reversed(CHAIN[k]), CHAIN[k])] + [['get', e, 1]]
+                    ops += [['setattr', e, 1, COLOF[l], 30], ['expire', k, 1, k], ['get', e, 1], ['get', 'A', 2], ['destroy', e, 1], ['get', 'A', 1]]
+                    out.append({'mode': 'auto', 'warm': True, 'conn': 'default', 'shape': [], 'inst': True, 'ops': ops})
+    return out
+
+
+INST_CORPUS = [
+    # open finding sync_expire_skip_inherited_levels: sync() / expire() of the child leave the ancestors' instances as they are
+    {'mode': 'auto', 'warm': True, 'conn': 'default', 'shape': [], 'inst': True,
+     'ops': [['create', 'C', {'x': 1, 'y': 1, 'z': 1}, False], ['rawset', 'A', 1, 5], ['rawset', 'C', 1, 7], ['sync', 'C', 1, 'C'], ['get', 'C', 1],
+             ['expire', 'A', 1, 'C'], ['get', 'A', 1], ['sync', 'C', 1, 'A'], ['get', 'B', 1]]},
+    # open finding expired_ancestor_instance_twin: expire() of an ancestor instance drops it from the identity map while the leaf keeps
+    # it as _parent; the next get makes a twin, a later new leaf adopts the twin with the value it loaded long ago
+    {'mode': 'auto', 'warm': True, 'conn': 'default', 'shape': [], 'inst': True,
+     'ops': [['create', 'C', {'x': 1, 'y': 1, 'z': 1}, False], ['expire', 'C', 1, 'B'], ['get', 'A', 1], ['setattr', 'C', 1, 'y', 17],
+             ['expire', 'C', 1, 'C'], ['get', 'C', 1]]},
+    # ... and an expire() of an instance that is expired already leaves the twin where it is
+    {'mode': 'auto', 'warm': True, 'conn': 'default', 'shape': [], 'inst': True,
+     'ops': [['create', 'C', {'x': 1, 'y': 1, 'z': 1}, False], ['expire', 'C', 1, 'A'], ['sync', 'A', 1, 'C'], ['rawset', 'A', 1, 5],
+             ['expire', 'C', 1, 'A'], ['expire', 'C', 1, 'B'], ['expire', 'C', 1, 'C'], ['get', 'C', 1]]},
+]
+
+
 def corpus():
     return [
         # finding: a cascade=False reference to the middle level: the ancestor row is deleted before the refusal
@@ -399,7 +514,7 @@ def corpus():
                                               ['create', 'C', {'x': 2, 'y': 1, 'z': 2}, False], ['create', 'C', {'x': 1, 'y': 2, 'z': 2}, False],
                                               ['create', 'C', {'x': 2, 'y': 2, 'z': 2}, True], ['select', 'A', ['true']],
                                               ['create', 'C', {'x': 2, 'y': 2, 'z': 2}, False], ['get', 'A', 5]]},
-    ] + SEEDED
+    ] + SEEDED + INST_CORPUS
 
 
 SEEDED = [
@@ -431,15 +546,17 @@ SEEDED = [
 
 
 def generate(rng, tier):
-    out = list(enum_cases()) + enum_shape_cases() + enum_id_cases()
+    out = list(enum_cases()) + enum_shape_cases() + enum_id_cases() + enum_inst_cases()
     n = 3000 if tier == "quick" else 30000
     for i in range(n):
         out.append(gen_history(rng, rng.randint(3, 16)))
+    for i in range(n // 3):
+        out.append(gen_inst_history(rng, rng.randint(4, 18)))
     return out
 
 
 def search_cases(rng, tier):
-    return [gen_history(rng, rng.randint(3, 20)) for _ in range(2500)]
+    return [gen_history(rng, rng.randint(3, 20)) for _ in range(2500)] + [gen_inst_history(rng, rng.randint(4, 20)) for _ in range(1500)]
 
 
 # ---------------------------------------------------------------- implementation side
@@ -597,7 +714,22 @@ def run_history(case):
         if not explicit:
             hub.processConnection = conn
     warm = bool(case.get('warm'))
+    inst = bool(case.get('inst'))
+    if inst:
+        # instance histories: the identity map lives through the whole history and is never culled
+        # (the per-class CacheFactory is made on first use with these keywords)
+        warm = True
+        conn.cache.kw['cullFrequency'] = 10 ** 9
     ckw = {'connection': conn} if explicit else {}
+
+    def level_inst(o, lvl):
+        """the instance of o's _parent chain whose class is the one of level lvl (None: o has no such level)"""
+        p = o
+        while p is not None:
+            if KOFPY.get(canon(type(p).__name__)) == lvl:
+                return p
+            p = p._parent
+        return None
 
     def dump():
         t = {}
@@ -613,11 +745,12 @@ def run_history(case):
     steps = []
     try:
         for op in case['ops']:
-            if not warm:
+            t = op[0]
+            cold_op = inst and (t not in INST_OPS or (t == 'create' and len(op) > 4 and op[4] is not None))
+            if not warm or cold_op:
                 conn.cache.clear()
                 if other is not None:
                     other.cache.clear()
-            t = op[0]
             try:
                 if t == 'create':
                     kw = dict(op[2])
@@ -667,6 +800,18 @@ def run_history(case):
                     o = fx[op[1]].get(op[2], **ckw)
                     o.destroySelf()
                     r = ['ok']
+                elif t == 'rawset':
+                    conn.query('UPDATE %s SET %s = %s WHERE id = %d' % (TABLE[op[1]], COLOF[op[1]], 'NULL' if op[3] is None else '%d' % op[3], op[2]))
+                    r = ['ok']
+                elif t in ('sync', 'syncupdate', 'expire'):
+                    o = fx[op[1]].get(op[2], **ckw)
+                    p = level_inst(o, op[3])
+                    if p is None:
+                        r = ['skip']
+                    else:
+                        {'sync': p.sync, 'syncupdate': p.syncUpdate, 'expire': p.expire}[t]()
+                        r = ['ok']
+                    p = None
                 elif t == 'ref':
                     conn.query('INSERT INTO verif_c15_hr (b_id) VALUES (%d)' % op[1])
                     r = ['ok']
@@ -683,6 +828,8 @@ def run_history(case):
             if other is not None:
                 st['other'] = dump_other()
             steps.append(st)
+            if cold_op:
+                conn.cache.clear()
             if warm and nesting_ok(tabs) is not None:
                 warm = False
                 conn.cache.clear()
@@ -786,7 +933,51 @@ def check_views(vs, k, i, rm):
     return None
 
 
+class Track(object):
+    """instance histories: what the property lets an attribute read show.  Per (id, level): `raw` -- the stored value was changed
+    behind the ORM's back since the level's instance was last refreshed (sync / expire on it, an assignment, creation);
+    `so` -- since then sync() or expire() was called on the instance of ANOTHER level of the same row (the property: the read
+    must now show the stored value); `twin` -- expire() was called on this non-leaf level's instance earlier (1) and after that on the leaf (2: a new leaf may have adopted a twin); `last` -- the
+    value last shown and every value the row held since (all a legitimately stale read may show: an instance may have
+    loaded the row at any get in between)."""
+
+    def __init__(self):
+        self.d = {}
+
+    def t(self, i, m):
+        return self.d.setdefault(i, {}).setdefault(m, {'raw': False, 'so': False, 'twin': False, 'last': set()})
+
+    def judge(self, vs, k, i, rm):
+        """-> list of (message, cause)"""
+        want = raw_vals(rm, k, i)
+        if want is None:
+            return [('rows of %d are missing' % i, None)]
+        ch = CHAIN[k]
+        if [v[0] for v in vs] != list(reversed(ch)):
+            return [('the _parent chain of %s %d is %r' % (k, i, [v[0] for v in vs]), None)]
+        out = []
+        leaf = dict(zip([COLOF[c] for c in ch], vs[0][1]))
+        for kk, vals in vs:
+            if vals != [leaf[COLOF[c]] for c in CHAIN[kk]]:
+                out.append(('the %s instance of %d reads %r, the leaf reads %r: not identical through the levels' % (kk, i, vals, leaf), None))
+        for c in ch:
+            sv, tv, t = leaf[COLOF[c]], want[COLOF[c]], self.t(i, c)
+            if sv != tv:
+                what = 'attribute %s of %d reads %r through every level, the %s row holds %r' % (COLOF[c], i, sv, c, tv)
+                if t['raw'] and not t['so']:
+                    if sv not in t['last']:
+                        out.append((what + ' (and the row held %r since the value was last shown)' % (sorted(t['last'], key=repr),), None))
+                elif t['raw']:
+                    out.append((what + ' although sync()/expire() was called on the instance of another level of the row since the out-of-band UPDATE', 'sync_skip'))
+                else:
+                    out.append((what + ' although nothing was written behind the ORM since the level was last refreshed', 'twin' if t['twin'] == 2 else None))
+            t['last'] = {sv}
+        return out
+
+
 def failures(case, obs):
+    inst = bool(case.get('inst'))
+    trk = Track()
     prev = {k: [] for k in CLASSES}
     prefs = []
     born = {}
@@ -804,6 +995,10 @@ def failures(case, obs):
             out.append({'step': n, 'op': op, 'what': what, 'ids': ids, 'cause': cause, 'mode': case['mode']})
 
         changed = {k for k in CLASSES if tabs[k] != prev[k]}
+        if inst and (t not in INST_OPS or (t == 'create' and len(op) > 4 and op[4] is not None)):
+            trk.d.clear()                      # the operation ran on an emptied identity map
+        if inst and t == 'destroy' and r[0] == 'ok':
+            trk.d.pop(op[2], None)
         if st.get('other'):
             fail('%d row(s) appeared in the database of the default connection although every operation named another connection' % st['other'])
         # ---- nesting after the step
@@ -879,12 +1074,47 @@ def failures(case, obs):
                     fail('%s %r returned %s %d although no such %s exists' % (t, op[1:], r[2], r[1], op[1]), [r[1]])
                 elif r[1] != i or r[2] != born[i]:
                     fail('%s %r returned %s %d; the row was created as %s %d' % (t, op[1:], r[2], r[1], born[i], i), [i])
+                elif inst:
+                    for m, cause in trk.judge(r[3], born[i], i, rm):
+                        fail('%s: %s' % (t, m), [i] if cause is None else [], cause)
                 else:
                     m = check_views(r[3], born[i], i, rm)
                     if m:
                         fail('%s: %s' % (t, m), [i])
             if changed:
                 fail('%s changed table(s) %s' % (t, sorted(changed)))
+        elif t in ('rawset',):
+            l, i = op[1], op[2]
+            for c in CLASSES:
+                want = [[x[0], op[3] if (c == l and x[0] == i and r == ['ok']) else x[1], x[2]] for x in prev[c]]
+                if tabs[c] != want:
+                    fail('raw UPDATE of %s %d: table %s is %r' % (l, i, c, tabs[c]), [i])
+            if r == ['ok'] and i in prm[l]:
+                tt = trk.t(i, l)
+                tt['last'].add(prm[l][i][1])       # an instance may load the row at any get in between, unseen
+                tt['raw'], tt['so'] = True, False
+        elif t in ('sync', 'syncupdate', 'expire'):
+            i, l = op[2], op[3]
+            if changed:
+                fail('%s changed table(s) %s' % (t, sorted(changed)), [i])
+            reach = i in born and op[1] in CHAIN[born[i]]
+            if r[0] == 'err' and (reach or r[1] != 'NotFound'):
+                fail('%s %r raised %s' % (t, op[1:], r[1]), [i])
+            if r[0] != 'err' and not reach:
+                fail('%s %r succeeded although no such %s exists' % (t, op[1:], op[1]), [i])
+            if reach and (r == ['ok']) != (l in CHAIN[born[i]]):
+                fail('%s %r: %r' % (t, op[1:], r), [i])
+            if r == ['ok'] and t != 'syncupdate' and reach:
+                for c in CHAIN[born[i]]:
+                    tt = trk.t(i, c)
+                    if c == l:
+                        tt['raw'], tt['so'] = False, False
+                        if t == 'expire' and c != born[i]:
+                            tt['twin'] = tt['twin'] or 1
+                    elif tt['raw']:
+                        tt['so'] = True
+                    if t == 'expire' and l == born[i] and c != l and tt['twin']:
+                        tt['twin'] = 2            # the next get makes a new leaf, which may adopt the twin of level c
         elif t in ('setattr', 'set'):
             i = op[2]
             if r[0] in ('err', 'skip'):
@@ -934,6 +1164,11 @@ def failures(case, obs):
                                 fail('after the write, %s.get(%d) gives %s %d' % (e, i, k2, i2), [i])
                             elif not same:
                                 fail('after the write, %s.get(%d) gives another instance' % (e, i), [i])
+                            elif inst and t == 'setattr':
+                                tt = trk.t(i, CLSOF[op[3]])
+                                tt['raw'], tt['so'] = False, False
+                                for m, cause in trk.judge(vs, k, i, rm):
+                                    fail('after the write via %s: %s' % (e, m), [i] if cause is None else [], cause)
                             else:
                                 m = check_views(vs, k, i, rm)
                                 if m:
@@ -999,7 +1234,9 @@ def failures(case, obs):
         prev, prefs = tabs, st['refs']
 
 
-CAUSES = {'set_not_atomic': 'inherit_set_not_atomic',
+CAUSES = {'sync_skip': 'sync_expire_skip_inherited_levels',
+          'twin': 'expired_ancestor_instance_twin',
+          'set_not_atomic': 'inherit_set_not_atomic',
           'destroy_restrict': 'destroy_refused_after_ancestor_rows_deleted',
           'txn_create': 'failed_create_in_transaction_keeps_ancestor_rows'}
 
@@ -1024,7 +1261,9 @@ def nontrivial(case, obs):
         r = st['r']
         if op[0] == 'create' and r[0] == 'id':
             born[r[1]] = op[1]
-        if op[0] in ('get', 'setattr', 'set', 'destroy') and r[0] != 'err' and born.get(op[2]) not in (None, op[1]):
+        if op[0] in ('get', 'setattr', 'set', 'destroy', 'sync', 'expire', 'syncupdate') and r[0] != 'err' and born.get(op[2]) not in (None, op[1]):
+            return True
+        if op[0] in ('sync', 'expire') and r == ['ok'] and born.get(op[2]) not in (None, op[3]):
             return True
         if op[0] in ('select', 'selectby') and op[1] != 'A' and r[0] == 'objs' and r[1]:
             return True
@@ -1032,7 +1271,7 @@ def nontrivial(case, obs):
 
 
 def key(case):
-    return [case['mode'], case['warm'], case.get('conn', 'default'), case.get('shape') or [], case['ops']]
+    return [case['mode'], case['warm'], case.get('conn', 'default'), case.get('shape') or [], case['ops']] + (['inst'] if case.get('inst') else [])
 
 
 def distribution(cases, obs):
@@ -1047,6 +1286,8 @@ def distribution(cases, obs):
         d.setdefault('columnless', {})
         d['columnless'][sh] = d['columnless'].get(sh, 0) + 1
         d['explicit_connection'] += 1 if c.get('conn') == 'explicit' else 0
+        d.setdefault('instance_histories', 0)
+        d['instance_histories'] += 1 if c.get('inst') else 0
         born = {}
         for op, st in zip(c['ops'], o['steps']):
             r = st['r']
@@ -1068,7 +1309,8 @@ def distribution(cases, obs):
 
 
 def explain(case, obs):
-    lines = ['mode %s, warm %s, connection %s, classes without own column %s' % (case['mode'], case['warm'], case.get('conn', 'default'), case.get('shape') or [])]
+    lines = ['mode %s, warm %s, connection %s, classes without own column %s%s' % (case['mode'], case['warm'], case.get('conn', 'default'), case.get('shape') or [],
+                                                                                    ', instance history (one identity map)' if case.get('inst') else '')]
     for op, st in zip(case['ops'], obs.get('steps', [])):
         lines.append('%r -> %r | %r refs %r' % (op, st['r'], st['t'], st['refs']))
     return '\n'.join(lines)
@@ -1143,6 +1385,15 @@ def cq_op(op, shape=()):
     return '(Unref %s)' % zlit(op[1])
 
 
+def cq_iop(op, shape=()):
+    t = op[0]
+    if t == 'rawset':
+        return '(RawSet %s %s %s)' % (CQ[op[1]], zlit(op[2]), optz(op[3]))
+    if t in ('sync', 'syncupdate', 'expire'):
+        return '(%s %s %s %s)' % ({'sync': 'Sync', 'syncupdate': 'SyncUpdate', 'expire': 'Expire'}[t], CQ[op[1]], zlit(op[2]), CQ[op[3]])
+    return '(Old %s)' % cq_op(op, shape)
+
+
 def cq_vals(vs):
     return '[%s]' % '; '.join(optz(v) if (v is None or isinstance(v, int)) else '(Some (-99999))' for v in vs)
 
@@ -1179,5 +1430,5 @@ def coq_case(c, o):
     for op, st in zip(c['ops'], o['steps']):
         tabs = '[%s]' % '; '.join('[%s]' % '; '.join('mkrow %s %s %s' % (zlit(r[0]), optz(r[1]), cq_tag(r[2])) for r in st['t'][k])
                                   for k in CLASSES)
-        steps.append('mkstep %s %s %s [%s]' % (cq_op(op, tuple(c.get('shape') or ())), cq_res(st['r']), tabs, '; '.join(zlit(z) for z in st['refs'])))
-    return 'mkcase %s [%s]' % ('true' if c['mode'] == 'auto' else 'false', ';\n  '.join(steps))
+        steps.append('mkstep %s %s %s [%s]' % (cq_iop(op, tuple(c.get('shape') or ())), cq_res(st['r']), tabs, '; '.join(zlit(z) for z in st['refs'])))
+    return 'mkcase %s %s [%s]' % ('true' if c['mode'] == 'auto' else 'false', 'true' if c.get('inst') else 'false', ';\n  '.join(steps))
